@@ -597,6 +597,11 @@ def check_case(case, ctx):
             if j == ci:
                 continue
             d = U.snapshot_diff(obs[j][1], new_obs[j][1])
+            if d and d[0] == 'symtab' and 'only on one side' in str(d[1]) and '%' in str(d[1]).split(':', 1)[0]:
+                # entries 'a%b' of derived-type members are a cache that is filled when a member's type is first looked up
+                # (also by our own observation): one that appears in the other copy's table is not a change of contents
+                ctx.count('member-cache-entry-appeared-in-other-copy(not judged)')
+                d = None
             if d:
                 sig = _changed_sig(d[0], d[1])
                 if label.startswith('typedef_edit') and linked_typedefs(new_obs[j][0]) & {id(t) for t in new_obs[ci][0].typedefs}:
